@@ -1767,3 +1767,45 @@ def rule_M8(ctx, rule: str = "M8") -> None:
     else:
         ctx.proved(rule, name, mod.rel, f"{len(graph)} functions on the parse call graph, {n_try} try statements around decode calls, none completes normally after catching ValueError")
     ctx.floor(rule, "functions on the parse call graph", len(graph), 6)
+
+
+def rule_M9(ctx, rule: str = "M9") -> None:
+    """what is done with one occurrence of a field is decided from that occurrence: in the record loop of Message.load, the
+    locals that the decoding reads (the field's name, its metadata, whether it is repeated - whatever reaches
+    _wire_type_matches / _postprocess_single / the store) are assigned in the same iteration on every path to the read.  A
+    value left over from the previous occurrence (a lookup skipped 'because the number is the same') lets an occurrence with
+    another wire type through the match test it never ran"""
+    from .presence import _d6_loop
+    mod = ctx.repo.mod(M_INIT)
+    load = mod.func("Message.load")
+    ctx.analysed("Message.load")
+    g = CFG(load, implicit_exc=False)
+    sites = _advance_sites(g, load)
+    name = "load:occurrence-decided-from-itself"
+    if not sites:
+        ctx.inconclusive(rule, name, "record loop not found", mod.loc(load))
+        return
+    found = []
+    n_reads = 0
+    for head, _ in sites:
+        loop_stmt = head.stmt if isinstance(head.stmt, ast.For) else next((lp for lp in ast.walk(load) if isinstance(lp, (ast.While, ast.For)) and any(x is head.stmt for x in ast.walk(lp))), None)
+        if loop_stmt is None:
+            ctx.inconclusive(rule, name, "the statement that takes the next record is not inside a loop", mod.loc(load))
+            return
+        coll = []
+        _, n = _d6_loop(g, head, loop_stmt, coll)
+        n_reads += n
+        found += coll
+    # only what feeds the decoding counts: byte counters and the like are carried on purpose
+    sinks = ("_wire_type_matches", "_postprocess_single", "setattr", "getattr", "_get_field_default", "meta_by_field_name", "default_gen", "cls_by_field")
+    decisive = [(v, nd) for v, nd in found if any(sk in ast.unparse(nd.stmt) if not isinstance(nd.stmt, (ast.If, ast.While, ast.For)) else sk in ast.unparse(getattr(nd.stmt, "test", None) or nd.stmt.iter) for sk in sinks)
+                or (isinstance(nd.stmt, (ast.If, ast.While)) and ".proto_type" in ast.unparse(nd.stmt.test))]
+    ctx.count(n_reads)
+    if decisive:
+        v, nd = decisive[0]
+        ctx.refuted(rule, name, f"carried:{v}", f"{mod.rel}:{nd.line}",
+                    f"in the record loop of load the local `{v}` is read at line {nd.line} on a path of the iteration that has not assigned it: it still holds what was looked up for the previous "
+                    "occurrence, so an occurrence can be decoded with metadata (and a wire-type verdict) that was established for another one",
+                    "two occurrences of one field number, the second with a wire type that does not fit the declared type")
+    else:
+        ctx.proved(rule, name, mod.loc(load), f"{n_reads} reads of loop-assigned locals; none that feeds the decoding is carried over")
